@@ -1,1 +1,422 @@
+(* FockAxes — apply_twomode_gate: the successive index switches bring the two targets to the front axes
+   (for every ordered pair), the kernel acts on exactly those axes in the listed order, and the switches are
+   undone afterwards.  Includes the pre-fix pure-state variant (`_old`) and its refutation. *)
+From Coq Require Import List Arith Bool Lia.
+Import ListNotations.
 From SFV Require Import FockAxes.Model FockAxes.Lists FockAxes.Proofs.
+
+(* case-split on the innermost index comparisons first *)
+Ltac no_eqb u := lazymatch u with context [Nat.eqb _ _] => fail | _ => idtac end.
+Ltac case_eqb :=
+  repeat (match goal with
+          | |- context [Nat.eqb ?u ?v] => no_eqb u; no_eqb v; destruct (Nat.eqb_spec u v); try lia
+          end).
+
+(* ---------------------------------------------------------------- axis lists given by a function *)
+
+(* [i[f 0], i[f 1], ..., i[f (n-1)]] *)
+Definition reindex (n : nat) (f : nat -> nat) (i : list nat) : list nat :=
+  map (fun x => nth (f x) i 0) (seq 0 n).
+
+Lemma length_reindex n f i : length (reindex n f i) = n.
+Proof. unfold reindex. now rewrite map_length, seq_length. Qed.
+
+Lemma nth_reindex n f i x : x < n -> nth x (reindex n f i) 0 = nth (f x) i 0.
+Proof. intros. unfold reindex. now rewrite nth_map_seq. Qed.
+
+Lemma reindex_ext n f g i : (forall x, x < n -> f x = g x) -> reindex n f i = reindex n g i.
+Proof. intros H. unfold reindex. apply map_ext_in. intros x Hx. apply in_seq in Hx. rewrite H; auto. lia. Qed.
+
+Lemma reindex_reindex n f g i :
+  (forall x, x < n -> f x < n) -> reindex n f (reindex n g i) = reindex n (fun x => g (f x)) i.
+Proof.
+  intros Hf. apply (nth_ext _ _ 0 0); [now rewrite !length_reindex|].
+  intros x Hx. rewrite length_reindex in Hx.
+  rewrite (nth_reindex n f) by auto. rewrite (nth_reindex n g) by auto.
+  now rewrite nth_reindex by auto.
+Qed.
+
+Lemma reindex_id n i : length i = n -> reindex n (fun x => x) i = i.
+Proof. intros <-. unfold reindex. apply map_nth_seq. Qed.
+
+(* the list p is the table of f on range(n) *)
+Definition table_of (n : nat) (p : list nat) (f : nat -> nat) : Prop :=
+  length p = n /\ forall x, x < n -> nth x p 0 = f x.
+
+(* np.transpose by the table of f reads the index through the inverse g of f *)
+Lemma unperm_table n p f g i :
+  table_of n p f ->
+  (forall x, x < n -> f x < n) -> (forall x, x < n -> g x < n) ->
+  (forall x, x < n -> f (g x) = x) -> (forall x, x < n -> g (f x) = x) ->
+  unperm p i = reindex n g i.
+Proof.
+  intros [Hl Ht] Hf Hg Hfg Hgf.
+  assert (Hnd : NoDup p).
+  { apply (NoDup_nth _ 0). intros a b Ha Hb E. rewrite Hl in Ha, Hb.
+    rewrite !Ht in E by auto. rewrite <- (Hgf a), <- (Hgf b) by auto. now rewrite E. }
+  apply (nth_ext _ _ 0 0); [now rewrite length_unperm, length_reindex|].
+  intros x Hx. rewrite length_unperm, Hl in Hx.
+  rewrite nth_unperm by lia. rewrite nth_reindex by auto. f_equal.
+  apply index_of_unique; auto.
+  - rewrite Hl. auto.
+  - rewrite Ht by auto. auto.
+Qed.
+
+(* ---------------------------------------------------------------- the swap tables built by fancy indexing *)
+
+Definition swapf (a b x : nat) : nat := if Nat.eqb x b then a else if Nat.eqb x a then b else x.
+
+Lemma swapf_lt n a b x : a < n -> b < n -> x < n -> swapf a b x < n.
+Proof. unfold swapf. intros. destruct (Nat.eqb x b), (Nat.eqb x a); lia. Qed.
+
+Lemma swapf_invol a b x : swapf a b (swapf a b x) = x.
+Proof.
+  unfold swapf.
+  case_eqb.
+Qed.
+
+Lemma nth_seq0 n x : x < n -> nth x (seq 0 n) 0 = x.
+Proof. intros. now rewrite seq_nth. Qed.
+
+(* l = arange(n); l[[a, b]] = l[[b, a]] *)
+Lemma fancy_swap_table n a b :
+  a < n -> b < n -> table_of n (fancy_move (seq 0 n) [a; b] [b; a]) (swapf a b).
+Proof.
+  intros Ha Hb. unfold fancy_move, fancy_assign, gather. simpl.
+  rewrite !nth_seq0 by auto.
+  split.
+  - now rewrite !length_upd, seq_length.
+  - intros x Hx.
+    rewrite nth_upd by (now rewrite length_upd, seq_length).
+    rewrite nth_upd by (now rewrite seq_length).
+    rewrite nth_seq0 by auto. reflexivity.
+Qed.
+
+Lemma unperm_fancy_swap n a b i :
+  a < n -> b < n -> unperm (fancy_move (seq 0 n) [a; b] [b; a]) i = reindex n (swapf a b) i.
+Proof.
+  intros Ha Hb. apply (unperm_table n _ (swapf a b) (swapf a b)).
+  - now apply fancy_swap_table.
+  - intros. now apply swapf_lt.
+  - intros. now apply swapf_lt.
+  - intros. apply swapf_invol.
+  - intros. apply swapf_invol.
+Qed.
+
+(* l = arange(N); l[[0, 1, t, t+1]] = l[[t, t+1, 0, 1]]   (t even) *)
+Definition swap2f (t x : nat) : nat :=
+  if Nat.eqb x (t + 1) then 1 else if Nat.eqb x t then 0 else if Nat.eqb x 1 then t + 1 else if Nat.eqb x 0 then t else x.
+
+Lemma swap2f_lt N t x : t + 1 < N -> x < N -> swap2f t x < N.
+Proof.
+  unfold swap2f. intros.
+  repeat (match goal with |- context [Nat.eqb ?u ?v] => destruct (Nat.eqb_spec u v) end); lia.
+Qed.
+
+Lemma swap2f_invol t x : t <> 1 -> swap2f t (swap2f t x) = x.
+Proof.
+  intros Ht. unfold swap2f.
+  case_eqb.
+Qed.
+
+Lemma fancy_swap2_table N t :
+  t + 1 < N -> table_of N (fancy_move (seq 0 N) [0; 1; t; t + 1] [t; t + 1; 0; 1]) (swap2f t).
+Proof.
+  intros Ht. unfold fancy_move, fancy_assign, gather. simpl.
+  rewrite !nth_seq0 by lia.
+  split.
+  - now rewrite !length_upd, seq_length.
+  - intros x Hx.
+    rewrite nth_upd by (rewrite !length_upd, seq_length; lia).
+    rewrite nth_upd by (rewrite !length_upd, seq_length; lia).
+    rewrite nth_upd by (rewrite !length_upd, seq_length; lia).
+    rewrite nth_upd by (rewrite seq_length; lia).
+    rewrite nth_seq0 by auto. reflexivity.
+Qed.
+
+Lemma unperm_fancy_swap2 N t i :
+  t + 1 < N -> t <> 1 ->
+  unperm (fancy_move (seq 0 N) [0; 1; t; t + 1] [t; t + 1; 0; 1]) i = reindex N (swap2f t) i.
+Proof.
+  intros Ht H1. apply (unperm_table N _ (swap2f t) (swap2f t)).
+  - now apply fancy_swap2_table.
+  - intros. now apply swap2f_lt.
+  - intros. now apply swap2f_lt.
+  - intros. now apply swap2f_invol.
+  - intros. now apply swap2f_invol.
+Qed.
+
+(* ---------------------------------------------------------------- conjugating a front-axes kernel by a permutation *)
+
+Lemma nth_front2 (j0 j1 : nat) (y : list nat) z :
+  nth z (j0 :: j1 :: skipn 2 y) 0 = if Nat.eqb z 0 then j0 else if Nat.eqb z 1 then j1 else nth z y 0.
+Proof.
+  destruct z as [|[|z]]; simpl; auto.
+  destruct y as [|a [|b y]]; simpl; auto; now destruct z.
+Qed.
+
+Lemma firstn2 (y : list nat) : 2 <= length y -> firstn 2 y = [nth 0 y 0; nth 1 y 0].
+Proof. destruct y as [|a [|b y]]; simpl; intros; try lia. reflexivity. Qed.
+
+Lemma length_front2 (j0 j1 : nat) (y : list nat) : 2 <= length y -> length (j0 :: j1 :: skipn 2 y) = length y.
+Proof. destruct y as [|a [|b y]]; simpl; intros; lia. Qed.
+
+Section Conjugation.
+  Context {V : Type}.
+  Notation tensor := (@tensor V).
+
+  (* s1 is st read through phi; the kernel acts on the two front axes of s1; the result is read through the
+     inverse phi' of phi.  Then the kernel has acted on axes (phi' 0, phi' 1) of st, in that order. *)
+  Lemma front2_conjugation (F : tensor -> tensor) n (phi phi' : nat -> nat) (st s1 : tensor) idx :
+    respects_shape 2 F -> 2 <= n -> length idx = n ->
+    (forall x, x < n -> phi x < n) -> (forall x, x < n -> phi' x < n) ->
+    (forall x, x < n -> phi' (phi x) = x) -> (forall x, x < n -> phi (phi' x) = x) ->
+    (forall x, length x = n -> s1 x = st (reindex n phi x)) ->
+    apply_front2 F s1 (reindex n phi' idx)
+    = F (fun j => st (put idx [phi' 0; phi' 1] j)) [nth (phi' 0) idx 0; nth (phi' 1) idx 0].
+  Proof.
+    intros HF Hn Hl Hphi Hphi' Hinv1 Hinv2 Hs1. unfold apply_front2.
+    rewrite firstn2 by (rewrite length_reindex; lia).
+    rewrite !nth_reindex by lia.
+    apply HF. intros j Hj.
+    destruct j as [|j0 [|j1 [|? ?]]]; simpl in Hj; try lia.
+    change ([j0; j1] ++ skipn 2 (reindex n phi' idx)) with (j0 :: j1 :: skipn 2 (reindex n phi' idx)).
+    rewrite Hs1.
+    2:{ rewrite length_front2; rewrite length_reindex; lia. }
+    f_equal.
+    apply (nth_ext _ _ 0 0); [now rewrite length_reindex, length_put|].
+    intros x Hx. rewrite length_reindex in Hx.
+    rewrite nth_reindex by auto. rewrite nth_front2.
+    rewrite nth_put by lia. unfold mem, existsb, index_of.
+    pose proof (Hphi x Hx) as Hpx.
+    assert (E0 : phi x = 0 <-> x = phi' 0).
+    { split; intros E; [rewrite <- E; symmetry; auto|rewrite E; apply Hinv2; lia]. }
+    assert (E1 : phi x = 1 <-> x = phi' 1).
+    { split; intros E; [rewrite <- E; symmetry; auto|rewrite E; apply Hinv2; lia]. }
+    destruct (Nat.eqb_spec (phi x) 0) as [A|A]; destruct (Nat.eqb_spec x (phi' 0)) as [B|B]; try tauto;
+      destruct (Nat.eqb_spec (phi x) 1) as [A1|A1]; destruct (Nat.eqb_spec x (phi' 1)) as [B1|B1];
+      try tauto; try lia; simpl; auto.
+    rewrite nth_reindex by auto. now rewrite Hinv1.
+  Qed.
+
+  (* ------------------------------------------------------------ pure state *)
+
+  Definition p2_of (t1 t2 : nat) : nat := if Nat.eqb t2 0 then t1 else t2.
+
+  Lemma twomode_pure_with_swaps (F : tensor -> tensor) n t1 q (st : tensor) idx :
+    respects_shape 2 F -> 2 <= n -> t1 < n -> q < n -> length idx = n ->
+    twomode_pure_with (fancy_move (seq 0 n) [0; t1] [t1; 0]) (fancy_move (seq 0 n) [1; q] [q; 1]) F st idx
+    = let a := swapf 0 t1 (swapf 1 q 0) in
+      let b := swapf 0 t1 (swapf 1 q 1) in
+      F (fun j => st (put idx [a; b] j)) [nth a idx 0; nth b idx 0].
+  Proof.
+    intros HF Hn Ht1 Hq Hl. unfold twomode_pure_with, transpose.
+    rewrite !unperm_fancy_swap by lia.
+    rewrite reindex_reindex by (intros; apply swapf_lt; lia).
+    cbv zeta.
+    apply (front2_conjugation F n (fun x => swapf 1 q (swapf 0 t1 x)) (fun x => swapf 0 t1 (swapf 1 q x)) st); auto.
+    - intros. apply swapf_lt; try lia. apply swapf_lt; lia.
+    - intros. apply swapf_lt; try lia. apply swapf_lt; lia.
+    - intros. now rewrite !swapf_invol.
+    - intros. now rewrite !swapf_invol.
+    - intros x Hx. rewrite !unperm_fancy_swap by lia.
+      rewrite reindex_reindex by (intros; apply swapf_lt; lia). reflexivity.
+  Qed.
+
+  (* current code *)
+  Theorem twomode_pure_correct (F : tensor -> tensor) n t1 t2 (psi : tensor) idx :
+    respects_shape 2 F -> t1 < n -> t2 < n -> t1 <> t2 -> length idx = n ->
+    apply_twomode_pure F n t1 t2 psi idx
+    = F (fun j => psi (put idx [t1; t2] j)) [nth t1 idx 0; nth t2 idx 0].
+  Proof.
+    intros HF H1 H2 Hne Hl. unfold apply_twomode_pure, switch_list_1_pure, switch_list_2_pure.
+    rewrite twomode_pure_with_swaps; auto; try lia.
+    2:{ destruct (Nat.eqb t2 0); lia. }
+    cbv zeta.
+    assert (Ea : swapf 0 t1 (swapf 1 (if Nat.eqb t2 0 then t1 else t2) 0) = t1).
+    { unfold swapf. case_eqb. }
+    assert (Eb : swapf 0 t1 (swapf 1 (if Nat.eqb t2 0 then t1 else t2) 1) = t2).
+    { unfold swapf. case_eqb. }
+    now rewrite Ea, Eb.
+  Qed.
+
+  (* code before the fix: what it really did *)
+  Theorem twomode_pure_old_action (F : tensor -> tensor) n t1 t2 (psi : tensor) idx :
+    respects_shape 2 F -> t1 < n -> t2 < n -> t1 <> t2 -> length idx = n ->
+    apply_twomode_pure_old F n t1 t2 psi idx
+    = let a := if Nat.eqb t2 0 then (if Nat.eqb t1 1 then 0 else 1) else t1 in
+      let b := if Nat.eqb t2 0 then t1 else t2 in
+      F (fun j => psi (put idx [a; b] j)) [nth a idx 0; nth b idx 0].
+  Proof.
+    intros HF H1 H2 Hne Hl. unfold apply_twomode_pure_old, switch_list_1_pure, switch_list_2_pure_old.
+    rewrite twomode_pure_with_swaps; auto; try lia.
+    cbv zeta.
+    assert (Ea : swapf 0 t1 (swapf 1 t2 0) = if Nat.eqb t2 0 then (if Nat.eqb t1 1 then 0 else 1) else t1).
+    { unfold swapf. case_eqb. }
+    assert (Eb : swapf 0 t1 (swapf 1 t2 1) = if Nat.eqb t2 0 then t1 else t2).
+    { unfold swapf. case_eqb. }
+    now rewrite Ea, Eb.
+  Qed.
+
+  (* the old code was right exactly when the second target is not mode 0 *)
+  Corollary twomode_pure_old_correct_when (F : tensor -> tensor) n t1 t2 (psi : tensor) idx :
+    respects_shape 2 F -> t1 < n -> t2 < n -> t1 <> t2 -> t2 <> 0 -> length idx = n ->
+    apply_twomode_pure_old F n t1 t2 psi idx
+    = F (fun j => psi (put idx [t1; t2] j)) [nth t1 idx 0; nth t2 idx 0].
+  Proof.
+    intros HF H1 H2 Hne H0 Hl. rewrite twomode_pure_old_action; auto.
+    destruct (Nat.eqb_spec t2 0); [lia|]. reflexivity.
+  Qed.
+
+  (* ---- the bare axis statement: after the two switches axis 0 is t1 and axis 1 is t2; undoing restores ---- *)
+  Theorem twomode_pure_axes n t1 t2 (psi : tensor) :
+    t1 < n -> t2 < n -> t1 <> t2 ->
+    let sw1 := switch_list_1_pure n t1 in
+    let sw2 := switch_list_2_pure n t1 t2 in
+    (forall x, length x = n ->
+       exists y, transpose (transpose psi sw1) sw2 x = psi y /\ length y = n /\
+                 nth t1 y 0 = nth 0 x 0 /\ nth t2 y 0 = nth 1 x 0 /\
+                 (forall a, a < n -> a <> t1 -> a <> t2 -> exists b, 2 <= b < n /\ nth a y 0 = nth b x 0)) /\
+    (forall idx, length idx = n ->
+       transpose (transpose (transpose (transpose psi sw1) sw2) sw2) sw1 idx = psi idx).
+  Proof.
+    intros H1 H2 Hne sw1 sw2. subst sw1 sw2. unfold switch_list_1_pure, switch_list_2_pure.
+    assert (Hn : 2 <= n) by lia.
+    set (q := if Nat.eqb t2 0 then t1 else t2).
+    assert (Hq : q < n) by (subst q; destruct (Nat.eqb t2 0); lia).
+    split.
+    - intros x Hx. unfold transpose. rewrite !unperm_fancy_swap by lia.
+      rewrite reindex_reindex by (intros; apply swapf_lt; lia).
+      eexists. split; [reflexivity|]. split; [apply length_reindex|].
+      rewrite !nth_reindex by lia.
+      subst q. unfold swapf.
+      split; [|split].
+      + case_eqb; reflexivity.
+      + case_eqb; reflexivity.
+      + intros a Ha Ha1 Ha2. rewrite nth_reindex by lia. eexists. split; [|reflexivity].
+        unfold swapf.
+        case_eqb.
+    - intros idx Hl. unfold transpose. rewrite !unperm_fancy_swap by lia.
+      rewrite !reindex_reindex by (intros; repeat apply swapf_lt; lia).
+      f_equal. rewrite <- (reindex_id n idx Hl) at 2. apply reindex_ext.
+      intros x Hx. now rewrite !swapf_invol.
+  Qed.
+
+  (* ------------------------------------------------------------ mixed state *)
+
+  Lemma fancy_tr_eq n t1 t2 :
+    transpose_list_mixed2 n t1 t2 = fancy_move (seq 0 (2 * n)) [t1 + 1; t2] [t2; t1 + 1].
+  Proof. reflexivity. Qed.
+
+  Theorem twomode_mixed_correct (F Fc : tensor -> tensor) n m1 m2 (rho : tensor) idx :
+    respects_shape 2 F -> respects_shape 2 Fc ->
+    m1 < n -> m2 < n -> m1 <> m2 -> length idx = 2 * n ->
+    apply_twomode_mixed F Fc n m1 m2 rho idx
+    = Fc (fun cj =>
+            let idx' := put idx [2 * m1 + 1; 2 * m2 + 1] cj in
+            F (fun rj => rho (put idx' [2 * m1; 2 * m2] rj)) [nth (2 * m1) idx' 0; nth (2 * m2) idx' 0])
+         [nth (2 * m1 + 1) idx 0; nth (2 * m2 + 1) idx 0].
+  Proof.
+    intros HF HFc H1 H2 Hne Hl.
+    unfold apply_twomode_mixed, switch_list_mixed, transpose_list_mixed2.
+    set (N := 2 * n). set (t1 := 2 * m1). set (t2 := 2 * m2).
+    assert (HN : 4 <= N) by lia.
+    assert (Ht1 : t1 + 1 < N) by lia. assert (Ht2 : t2 + 1 < N) by lia.
+    assert (Ht1' : t1 <> 1) by lia. assert (Ht2' : t2 <> 1) by lia.
+    set (ftr := swapf (t1 + 1) t2).
+    (* first stage seen as a tensor of its own: mid = F on the row axes of rho *)
+    set (mid := fun w : list nat => F (fun rj => rho (put w [t1; t2] rj)) [nth t1 w 0; nth t2 w 0]).
+    cbv zeta.
+    unfold transpose at 1 2 3 4.
+    rewrite (unperm_fancy_swap N (t1 + 1) t2) by lia.
+    rewrite (unperm_fancy_swap2 N t2) by lia.
+    rewrite reindex_reindex by (intros; apply swap2f_lt; lia).
+    fold ftr.
+    assert (Hftr : forall x, x < N -> ftr x < N) by (intros; apply swapf_lt; lia).
+    assert (Hs1 : forall x, x < N -> swap2f t1 x < N) by (intros; apply swap2f_lt; lia).
+    assert (Hs2 : forall x, x < N -> swap2f t2 x < N) by (intros; apply swap2f_lt; lia).
+    assert (HN2 : 2 <= N) by lia.
+    assert (P1 : forall x, x < N -> swap2f t1 (ftr x) < N) by (intros; apply Hs1; now apply Hftr).
+    assert (P1' : forall x, x < N -> ftr (swap2f t1 x) < N) by (intros; apply Hftr; now apply Hs1).
+    assert (I1 : forall x, x < N -> ftr (swap2f t1 (swap2f t1 (ftr x))) = x)
+      by (intros; unfold ftr; now rewrite swap2f_invol, swapf_invol).
+    assert (I1' : forall x, x < N -> swap2f t1 (ftr (ftr (swap2f t1 x))) = x)
+      by (intros; unfold ftr; now rewrite swapf_invol, swap2f_invol).
+    assert (P2 : forall x, x < N -> swap2f t2 (ftr x) < N) by (intros; apply Hs2; now apply Hftr).
+    assert (P2' : forall x, x < N -> ftr (swap2f t2 x) < N) by (intros; apply Hftr; now apply Hs2).
+    assert (I2 : forall x, x < N -> ftr (swap2f t2 (swap2f t2 (ftr x))) = x)
+      by (intros; unfold ftr; now rewrite swap2f_invol, swapf_invol).
+    assert (I2' : forall x, x < N -> swap2f t2 (ftr (ftr (swap2f t2 x))) = x)
+      by (intros; unfold ftr; now rewrite swapf_invol, swap2f_invol).
+    assert (E10 : ftr (swap2f t1 0) = t1) by (unfold ftr, swapf, swap2f; case_eqb).
+    assert (E11 : ftr (swap2f t1 1) = t2) by (unfold ftr, swapf, swap2f; case_eqb).
+    assert (E20 : ftr (swap2f t2 0) = t1 + 1) by (unfold ftr, swapf, swap2f; case_eqb).
+    assert (E21 : ftr (swap2f t2 1) = t2 + 1) by (unfold ftr, swapf, swap2f; case_eqb).
+    (* the row stage equals mid read through phi1 *)
+    set (s1 := transpose (transpose rho (fancy_move (seq 0 N) [t1 + 1; t2] [t2; t1 + 1]))
+                         (fancy_move (seq 0 N) [0; 1; t1; t1 + 1] [t1; t1 + 1; 0; 1])).
+    assert (Hs1eq : forall x, length x = N -> s1 x = rho (reindex N (fun u => swap2f t1 (ftr u)) x)).
+    { intros x Hx. subst s1. unfold transpose.
+      rewrite (unperm_fancy_swap N (t1 + 1) t2) by lia.
+      rewrite (unperm_fancy_swap2 N t1) by lia.
+      rewrite reindex_reindex by auto. reflexivity. }
+    assert (Hmid : forall z, length z = N ->
+              apply_front2 F s1 z = mid (reindex N (fun u => swap2f t1 (ftr u)) z)).
+    { intros z Hz.
+      set (w := reindex N (fun u => swap2f t1 (ftr u)) z).
+      assert (Hw : length w = N) by (subst w; apply length_reindex).
+      assert (Ez : z = reindex N (fun u => ftr (swap2f t1 u)) w).
+      { subst w. rewrite reindex_reindex by auto.
+        rewrite <- (reindex_id N z Hz) at 1. apply reindex_ext. intros x Hx. symmetry. now apply I1'. }
+      rewrite Ez.
+      rewrite (front2_conjugation F N (fun u => swap2f t1 (ftr u)) (fun u => ftr (swap2f t1 u)) rho s1 w
+                 HF HN2 Hw P1 P1' I1 I1' Hs1eq).
+      unfold mid. now rewrite E10, E11. }
+    set (c := transpose (transpose (apply_front2 F s1) (fancy_move (seq 0 N) [0; 1; t1; t1 + 1] [t1; t1 + 1; 0; 1]))
+                        (fancy_move (seq 0 N) [0; 1; t2; t2 + 1] [t2; t2 + 1; 0; 1])).
+    assert (Hc : forall x, length x = N -> c x = mid (reindex N (fun u => swap2f t2 (ftr u)) x)).
+    { intros x Hx. subst c. unfold transpose.
+      rewrite (unperm_fancy_swap2 N t2) by lia.
+      rewrite (unperm_fancy_swap2 N t1) by lia.
+      rewrite Hmid by apply length_reindex.
+      f_equal.
+      rewrite !reindex_reindex by auto.
+      apply reindex_ext. intros u Hu. now rewrite swap2f_invol. }
+    match goal with |- _ = ?rhs =>
+      change (apply_front2 Fc c (reindex N (fun u => ftr (swap2f t2 u)) idx) = rhs) end.
+    rewrite (front2_conjugation Fc N (fun u => swap2f t2 (ftr u)) (fun u => ftr (swap2f t2 u)) mid c idx
+               HFc HN2 Hl P2 P2' I2 I2' Hc).
+    rewrite E20, E21. reflexivity.
+  Qed.
+
+End Conjugation.
+
+(* ---------------------------------------------------------------- refutation of the pre-fix code *)
+
+(* a kernel that is not symmetric between its two axes, on nat-valued tensors *)
+Definition probe_kernel (s : @tensor nat) : @tensor nat := fun o => s [nth 0 o 0; nth 0 o 0].
+Definition probe_state : @tensor nat := fun idx => nth 0 idx 0 + 2 * nth 1 idx 0 + 4 * nth 2 idx 0.
+
+Lemma probe_kernel_respects_shape : respects_shape 2 probe_kernel.
+Proof. intros s1 s2 H o. unfold probe_kernel. apply H. reflexivity. Qed.
+
+(* BS on modes (2, 0) of a 3-mode register: the old switches put modes (1, 2) in front *)
+Theorem twomode_pure_old_refuted :
+  exists (F : @tensor nat -> @tensor nat) n t1 t2 (psi : @tensor nat) idx,
+    respects_shape 2 F /\ t1 < n /\ t2 < n /\ t1 <> t2 /\ length idx = n /\
+    apply_twomode_pure_old F n t1 t2 psi idx
+    <> F (fun j => psi (put idx [t1; t2] j)) [nth t1 idx 0; nth t2 idx 0].
+Proof.
+  exists probe_kernel, 3, 2, 0, probe_state, [1; 0; 0].
+  repeat split; try lia; try apply probe_kernel_respects_shape.
+  vm_compute. discriminate.
+Qed.
+
+Theorem twomode_pure_axes_old_refuted :
+  exists n t1 t2, t1 < n /\ t2 < n /\ t1 <> t2 /\
+    exists x, length x = n /\
+      nth t2 (unperm (switch_list_1_pure n t1) (unperm (switch_list_2_pure_old n t2) x)) 0 <> nth 1 x 0.
+Proof.
+  exists 3, 2, 0. repeat split; try lia.
+  exists [5; 6; 7]. split; [reflexivity|]. vm_compute. discriminate.
+Qed.
